@@ -145,6 +145,7 @@ func (x *explorer) merge(out *PathResult) {
 	r.Paths++
 	r.Status[out.status]++
 	r.BranchQ += out.nBranchQ
+	r.Decisions += out.nEdges
 	r.AssertQ += out.nAssertQ
 	r.AssertOK += out.nAssertOK
 	r.AssertTriv += out.nAssertTriv
@@ -196,6 +197,10 @@ func (e *Engine) runPath(h *HarnessSpec, sol *Solver, prefix []int64) (out *Path
 	}
 	defer func() {
 		out.steps = ex.steps
+		out.nEdges = len(ex.decisions) - len(prefix) + len(out.newPrefixes)
+		if out.nEdges < 0 {
+			out.nEdges = 0
+		}
 		out.funcs = ex.funcsSeen
 		out.reached = ex.reached
 		out.asserts = ex.assertsSeen
